@@ -733,12 +733,19 @@ def spec_let(b, an, bad):
         if slot == 'b' and s.env.get(name) != OK('e'):
             bad('S-binder', f'Let: {name!r} holds {fmt(s.env.get(name))} when the body starts, '
                             f'expected the value of the bound expression')
+    before = {fmt(s.env.get(name)) for slot, s in an.starts if slot == 'e'}
     for s in an.exits:
         h = hist_children(s.hist)
         if h == [('e', True), ('b', True)]:
             expect_exit(s, True, SUCC('b'), OK('b'), bad, 'Let')
         elif s.st is not False:
             bad('S-flow', f'Let: exit after {h} with _status={s.st}')
+        if h == [('e', False)] and fmt(s.env.get(name)) not in before:
+            # all bound names of a rule body are locals of one Python function: a name bound although its
+            # expression failed overwrites an outer binding of the same name (parameter, enclosing let,
+            # earlier field) for the alternatives tried next
+            bad('S-binder', f'Let: the bound expression failed, yet {name!r} was assigned ({fmt(s.env.get(name))}): an '
+                            f'outer binding of the same name is overwritten by an abandoned attempt')
 
 
 def list_elems(t):
